@@ -980,7 +980,6 @@ Lemma gen_inv cfg tmpl src out : gen cfg tmpl src = Ok out ->
   exists s d, parse src = Ok s /\ prepare cfg s = Ok d /\ render tmpl d = Ok out.
 Proof.
   unfold gen. destruct (parse src) as [s| | |]; cbn [obind]; try discriminate.
-  destruct (script_huge s); [discriminate|].
   destruct (prepare cfg s) as [d| | |] eqn:E; cbn [obind]; try discriminate. eauto.
 Qed.
 
@@ -1036,7 +1035,7 @@ Qed.
 Theorem gen_refuses_dangling_src cfg tmpl src s p : parse src = Ok s -> translate s = Ok p -> dangling p ->
   exists cls, gen cfg tmpl src = Err cls.
 Proof.
-  intros Ep Et Hd. unfold gen. rewrite Ep. cbn [obind]. destruct (script_huge s); [eauto|].
+  intros Ep Et Hd. unfold gen. rewrite Ep. cbn [obind].
   rewrite (gen_refuses_dangling cfg s p Et Hd). cbn [obind]. eauto.
 Qed.
 
